@@ -220,6 +220,21 @@ func runC04(c *Ctx) {
 				"bytes of a request can reach the transport before the request is registered in the transaction table (a fast peer's response finds no matching request)",
 				map[string]interface{}{"transport_write": describeInstr(o), "registration_sites": regPos})
 		}
+		// and never again afterwards: a registration that can follow a transport write re-inserts a request the reader may
+		// already have matched and deleted, so the same response could be matched twice
+		counts2 := map[string]int{}
+		for _, r := range reg {
+			late := ""
+			for _, o := range outs {
+				if o != r && core.Precedes(o, r) {
+					late = P.InstrPos(o)
+				}
+			}
+			key := ordKey(counts2, "rtmp|(*Protocol).WritePacket|registration-not-after-write")
+			R.Check(late == "", "C04.order", key, P.InstrPos(r),
+				"the request is registered only before its bytes can reach the transport",
+				"the request is (also) registered after the transport write at "+late+": if the peer answered in between, the reader already matched and removed it, and it is inserted again - a later response with this id is matched a second time", nil)
+		}
 	}
 
 	// ---- C04.txn (shared with C03.txn)
